@@ -168,5 +168,11 @@ mut('c12-one-read-one-command', 'C12', CS, "        user_input = input()", "    
 mut('c17-loader-skips-exponent-notation', ['C17', 'C02'], GIO, "                value = split_values[0]\r\n                prob = float(split_values[1]) / total_prob", "                if not split_values[1].replace('.', '', 1).isdigit():\r\n                    continue\r\n                value = split_values[0]\r\n                prob = float(split_values[1]) / total_prob", desc='probabilities below 1e-4 are written in exponent notation and silently skipped')
 mut('c19-multiword-read-with-prefixcount', 'C19', RT, "            program_info['multiword'],\r\n            program_info['encoding']\r\n        )", "            program_info['multiword'],\r\n            program_info['encoding'],\r\n            program_info['prefixcount']\r\n        )")
 mut('c20-copy-exists-falls-through', 'C20', ER, "        _create_copy(os.path.join(config.get('rules_dir'), config.get('rule')),\n                    os.path.join(config.get('rules_dir'), config.get('copy')))\n        config['rule'] = config['copy']", "        try:\n            _create_copy(os.path.join(config.get('rules_dir'), config.get('rule')),\n                    os.path.join(config.get('rules_dir'), config.get('copy')))\n            config['rule'] = config['copy']\n        except FileExistsError:\n            pass")
+mut('benign-own-random-generator', 'C16', G, "import random", "import random\r\nRNG = random.Random()", benign=True, desc='all draws of the guesser moved to a generator object of its own, seeded by the session: distribution and reproducibility unchanged',
+    more=[(G, "            mask = random.choice(self.grammar[pt_type][index]['values'])", "            mask = RNG.choice(self.grammar[pt_type][index]['values'])", 0),
+          (G, "            item = random.choice(self.grammar[pt_type][index]['values'])", "            item = RNG.choice(self.grammar[pt_type][index]['values'])", 0),
+          (G, "        prob_target = random.random() * total_prob", "        prob_target = RNG.random() * total_prob", 0),
+          (G, "            prob_target = random.random() * total_prob", "            prob_target = RNG.random() * total_prob", 0),
+          ('lib_guesser/honeyword_session.py', "            random.seed(self.random_seed)", "            random.seed(self.random_seed); __import__('lib_guesser.pcfg_grammar', fromlist=['RNG']).RNG.seed(self.random_seed)", 0)])
 json.dump(M, open(os.path.join(os.path.dirname(os.path.abspath(__file__)), 'mutants.json'), 'w'), indent=1)
 print(len(M), 'mutants')
